@@ -34,7 +34,7 @@ def check_gate(ctx):
     names = _dtype_names(f)
     if not names:
         raise AnalysisError('%s: dtype parameter not found' % f.where)
-    for kind, must_pass in (('object', True), ('str', True), ('int', False), ('float', False), ('bool', False)):
+    for kind, must_pass in (('object', True), ('str', True), ('int', False), ('int32', False), ('float', False), ('float32', False), ('bool', False)):
         outs = dt_outcomes(f.node, kind, names)
         kinds = sorted(set(o[0] + ':' + o[1] for o in outs))
         raises = [o for o in outs if o[0] in ('raise', 'pred-raises')]
@@ -66,7 +66,7 @@ def check_series_dispatch(ctx):
                 if d.value is not None and d.node is not None:
                     parts.append(U(untag(view.expand(d.value, d.node))))
         return ' | '.join(sorted(set(parts)))
-    for kind in ('object', 'str', 'int', 'float'):
+    for kind in ('object', 'str', 'int', 'int32', 'float', 'float32'):
         outs = dt_outcomes(f.node, kind, names)
         # argument-check raises (AssertionError) are not dtype outcomes
         outs = [o for o in outs if not (o[0] == 'raise' and o[1] == 'AssertionError')]
@@ -80,7 +80,7 @@ def check_series_dispatch(ctx):
             conv = [r for r in rets if 'astype(str)' in r or '.apply(' in r]
             ok = not conv
             msg = 'a %s (string) column is converted (`%s`) instead of being returned unchanged' % (kind, conv[:1])
-        elif kind == 'int':
+        elif kind in ('int', 'int32'):
             ok = any('astype(str)' in r for r in rets)
             msg = 'an int column never reaches the astype(str) conversion: returns %s' % rets
         else:
